@@ -23,6 +23,9 @@ import (
 	"github.com/avfs/avfs"
 )
 
+// Maximum size of a file : its content is held in one byte slice.
+const maxFileSize = 1<<31 - 1
+
 // OrefaFS implements a memory file system using the avfs.VFS interface.
 type OrefaFS struct {
 	nodes           nodes        // nodes is the map of nodes (files or directories) where the key is the absolute path.
